@@ -120,7 +120,10 @@ def copy_op(rng, impl, typed):
             return None
         return {"op": "w.copykids", "t": ti, "p": p, "st": st, "sp": sp, "deep": rng.choice([True, False]), "tree_api": rng.random() < 0.7}
     if r < 0.6 and st != ti and impl.trees[st].children:
-        return {"op": "w.addtree", "t": ti, "p": p, "st": st, "before": rng.choice(H.befores(rng, impl, ti, p)[:9]), "deep": rng.choice([None, True, False])}
+        op = {"op": "w.addtree", "t": ti, "p": p, "st": st, "before": rng.choice(H.befores(rng, impl, ti, p)[:9]), "deep": rng.choice([None, True, False])}
+        if rng.random() < 0.4:
+            H.via_shortcut(rng, impl, ti, op)      # append_child / prepend_child / prepend_sibling / append_sibling (<tree>)
+        return op
     if not sp_all:
         return None
     sp = rng.choice(sp_all)
@@ -133,6 +136,8 @@ def copy_op(rng, impl, typed):
         op["deep"] = bool(deep)
     elif typed and rng.random() < 0.5:
         op["kind"] = impl.node(st, sp).kind
+    if op.get("via") != "copy_to" and not isinstance(op.get("before"), dict) and rng.random() < 0.3:
+        H.via_shortcut(rng, impl, ti, op)
     return op
 
 
